@@ -25,7 +25,7 @@ RULE = (
     "representation (equal pairs) or equal area (half of the different pairs)."
 )
 MANDATORY = ["equal:rotated", "equal:inserted", "equal:split-curved", "equal:numeric-type", "equal:permuted", "equal:deepcopy",
-             "different:vertex-moved", "different:orientation", "different:hole-moved", "different:component-moved", "different:kind",
+             "different:vertex-moved", "different:orientation", "different:hole-moved", "different:component-moved", "different:kind", "different:tiny-extra-component",
              "mixed-degrees", "jordan", "kind:connected", "kind:disjoint"]
 
 
@@ -265,6 +265,19 @@ def _different(spec, case, size):
         out.append(("kind", {"k": "simple", "curve": spec["curves"][0]}))
     if kind == "simple":
         out.append(("kind", {"k": "empty"} if d % 2 else {"k": "whole"}))
+    # the same shape plus a tiny but valid extra component (area < 1e-6) far
+    # outside / a tiny extra hole: different regions, areas within any tolerance
+    curves = lib.spec_curves(spec)
+    if all(rg.curve_is_polygon(c) for c in curves):
+        box = rg.curve_box([sg for c in curves for sg in c])
+        e = F(1, 2000)
+        x0, y0 = F(box[2]).limit_denominator(1000) + 3, F(box[3]).limit_denominator(1000) + 3
+        tiny = rg.polygon_curve([(x0, y0), (x0 + e, y0), (x0 + e, y0 + e), (x0, y0 + e)])
+        if lib.spec_moment(spec) > 0:
+            parts = list(spec["parts"]) if kind == "disjoint" else [spec]
+            cand = {"k": "disjoint", "parts": parts + [{"k": "simple", "curve": tiny}]}
+            if kind == "disjoint" and lib.spec_valid(cand):
+                out.append(("tiny-extra-component", cand))
     return out
 
 
